@@ -433,6 +433,132 @@ Proof.
   - apply rd_slice_loop_S. exact HS.
 Qed.
 
+(* --- ReadBytes: ReadSlice repeated over full buffers *)
+Lemma rd_bytes_loop_S : forall fuel delim s d e s', InvS s -> rd_bytes_loop fuel delim s = (d, e, s') ->
+  InvS s' /\ data_law s s' d.
+Proof.
+  induction fuel as [|f IH]; intros delim s d e s' HS; cbn [rd_bytes_loop].
+  - intros E; inversion E; subst. split; [exact HS|].
+    unfold data_law. change (blen []) with 0. rewrite Z.add_0_r, sub_empty. split; [reflexivity|lia].
+  - destruct (rd_slice delim s) as [[frag e1] s1] eqn:Es.
+    destruct (rd_slice_S delim s frag e1 s1 HS Es) as (HS1 & [Hd1 Hd2] & _).
+    destruct (e1 =? 0); [intros E; inversion E; subst; split; [exact HS1|split; assumption]|].
+    destruct (negb (e1 =? 3)); [intros E; inversion E; subst; split; [exact HS1|split; assumption]|].
+    destruct (rd_bytes_loop f delim s1) as [[rest e2] s2] eqn:Er.
+    destruct (IH delim s1 rest e2 s2 HS1 Er) as (HS2 & [Hr1 Hr2]).
+    intros E; inversion E; subst. split; [exact HS2|].
+    pose proof HS as ((_ & Hr0 & _ & _ & _ & Hrt & _) & _).
+    pose proof (blen_nonneg frag). pose proof (blen_nonneg rest).
+    unfold data_law. rewrite blen_app. split; [|lia].
+    rewrite (sub_split S (rtotal s) (rtotal s + blen frag) (rtotal s + (blen frag + blen rest))) by lia.
+    rewrite <- Hd1. f_equal. rewrite Hr1 at 1. rewrite Hd2. f_equal. lia.
+Qed.
+
+(* --- WriteTo (sink never fails).  lastByte is reset first, so between the steps only the weaker invariant
+   without the "bytes in front of r" clause holds; the first fill re-establishes it. *)
+Definition InvS0 (s : reader) : Prop :=
+  Inv s /\ rtotal s <= blen S /\ skipn (Z.to_nat (rtotal s)) S = R s /\ LastOK s.
+Lemma InvS_InvS0 s : InvS s -> InvS0 s.
+Proof. intros (H1 & H2 & H3 & _ & H5). split; [exact H1|split; [exact H2|split; [exact H3|exact H5]]]. Qed.
+
+Lemma fill_invS0 s : InvS0 s -> InvS (fill s) /\ rtotal (fill s) = rtotal s /\ rlast (fill s) = rlast s.
+Proof.
+  intros (HI & HtS & HR & HL).
+  destruct (fill_inv s HI) as (HI1 & _ & Hr1 & _ & Hl1 & Ht1).
+  destruct (src_read (rcap s - buffered s) (rsrc s)) as [[d e] src'] eqn:Es.
+  destruct (fill_eq s d e src' HI Es) as [buf' [Ef Hw]].
+  pose proof HI as (Hc & Hr0 & Hrw & Hwc & _).
+  assert (Hroom : 0 <= rcap s - buffered s) by (unfold buffered; lia).
+  destruct (src_read_stream _ _ _ _ _ Hroom Es) as [Hstream _].
+  split; [|split; assumption].
+  split; [exact HI1|]. rewrite Ht1. split; [exact HtS|]. split.
+  - rewrite HR. unfold R. rewrite Ef. unfold window. cbn [rbuf rr rw rsrc]. rewrite Hw, Hstream, app_assoc. reflexivity.
+  - split.
+    + right. intros i Hi. rewrite Hr1 in Hi. lia.
+    + unfold LastOK in *. rewrite Hl1, Ht1, Hr1. intros H0 Hrw1. apply HL; [exact H0|].
+      rewrite Ef in Hrw1. cbn [rw] in Hrw1. pose proof (blen_nonneg d). unfold buffered in *. lia.
+Qed.
+
+Lemma write_buf_S out s out' s' : InvS s -> rlast s = -1 -> rr s < rw s -> write_buf out s = (out', s') ->
+  InvS s' /\ rlast s' = -1 /\ rtotal s' = rtotal s + buffered s /\
+  out' = out ++ sub S (rtotal s) (rtotal s + buffered s).
+Proof.
+  intros HS Hl Hlt. unfold write_buf. intros E; inversion E; subst; clear E.
+  destruct (consume_invS s (buffered s) (rlast s) HS ltac:(unfold buffered; lia) ltac:(lia)) as (HS1 & Hd & _).
+  replace (rr s + buffered s) with (rw s) in * by (unfold buffered; lia).
+  split; [exact HS1|]. split; [unfold advance; cbn [rlast]; exact Hl|]. split; [unfold advance; cbn [rtotal]; reflexivity|].
+  unfold window. rewrite Hd. reflexivity.
+Qed.
+
+Lemma rd_wt_loop_S : forall fuel out s out' s' t0, InvS0 s -> (fuel = O -> InvS s) -> rlast s = -1 ->
+  0 <= t0 <= rtotal s -> out = sub S t0 (rtotal s) ->
+  rd_wt_loop fuel out s = (out', s') -> InvS s' /\ out' = sub S t0 (rtotal s') /\ rtotal s <= rtotal s'.
+Proof.
+  induction fuel as [|f IH]; intros out s out' s' t0 HS0 HO Hl Ht0 Hout; cbn [rd_wt_loop].
+  - intros E; inversion E; subst. split; [apply set_err_invS; apply HO; reflexivity|].
+    unfold set_err. cbn [rtotal]. split; [reflexivity|lia].
+  - destruct (fill_invS0 s HS0) as (HS1 & Ht1 & Hl1).
+    destruct (rr (fill s) <? rw (fill s)) eqn:Elt.
+    + destruct (write_buf out (fill s)) as [o2 s2] eqn:Ew.
+      destruct (write_buf_S out (fill s) o2 s2 HS1 ltac:(lia) ltac:(lia) Ew) as (HS2 & Hl2 & Ht2 & Ho2).
+      intros E. pose proof HS1 as ((_ & Hr0f & Hrwf & _) & _).
+      assert (Hb : 0 <= buffered (fill s)) by (unfold buffered; lia).
+      destruct (IH o2 s2 out' s' t0 (InvS_InvS0 s2 HS2) ltac:(intros _; exact HS2) Hl2 ltac:(lia)
+                  ltac:(rewrite Ho2, Hout, Ht2, Ht1; symmetry; apply sub_split; lia) E) as (H1 & H2 & H3).
+      split; [exact H1|]. split; [exact H2|]. lia.
+    + intros E; inversion E; subst. split; [exact HS1|]. rewrite Ht1. split; [reflexivity|lia].
+Qed.
+
+Lemma rd_writeto_S s d e s' : InvS s -> rd_writeto s = (d, e, s') -> InvS s' /\ data_law s s' d.
+Proof.
+  intros HS. pose proof HS as (HI & HtS & HR & HP & HL).
+  pose proof HI as (Hc & Hr0 & Hrw & Hwc & Ht & Hrt & Hl0).
+  unfold rd_writeto.
+  set (s0 := mkR (rbuf s) (rr s) (rw s) (rerr s) (-1) (rtotal s) (rsrc s) (rpulled s)).
+  assert (HI0 : Inv s0).
+  { unfold Inv, rcap, s0 in *. cbn [rbuf rr rw rerr rlast rtotal rsrc rpulled]. repeat split; lia. }
+  assert (Hfin : forall out s1 t1, InvS0 s1 -> rlast s1 = -1 -> rtotal s1 = t1 -> rtotal s <= t1 ->
+            out = sub S (rtotal s) t1 ->
+            (let '(out2, s2) := rd_wt_loop (rfuel s) out s1 in
+             let s3 := if rerr s2 =? 1 then set_err s2 0 else s2 in (out2, rerr s3, set_err s3 0)) = (d, e, s') ->
+            InvS s' /\ data_law s s' d).
+  { intros out s1 t1 HS1 Hl1 Ht1 Hle Hout.
+    destruct (rd_wt_loop (rfuel s) out s1) as [out2 s2] eqn:E2.
+    assert (Hfuel : rfuel s = O -> InvS s1) by (unfold rfuel; lia).
+    destruct (rd_wt_loop_S (rfuel s) out s1 out2 s2 (rtotal s) HS1 Hfuel Hl1 ltac:(lia) ltac:(rewrite Ht1; exact Hout) E2)
+      as (HS2 & Ho2 & Hle2).
+    intros E; inversion E; subst; clear E.
+    assert (HS3 : InvS (if rerr s2 =? 1 then set_err s2 0 else s2)) by (destruct (rerr s2 =? 1); [apply set_err_invS|]; exact HS2).
+    split; [apply set_err_invS; exact HS3|].
+    assert (Ht3 : rtotal (set_err (if rerr s2 =? 1 then set_err s2 0 else s2) 0) = rtotal s2)
+      by (destruct (rerr s2 =? 1); reflexivity).
+    unfold data_law. rewrite Ht3.
+    assert (Hlen : blen (sub S (rtotal s) (rtotal s2)) = rtotal s2 - rtotal s).
+    { pose proof HS2 as (_ & HtS2 & _). apply sub_length; lia. }
+    rewrite Hlen. split; [f_equal; lia|lia]. }
+  destruct (Z_lt_ge_dec (rr s) (rw s)) as [Hlt|Hge].
+  - assert (HS0 : InvS s0).
+    { split; [exact HI0|]. unfold s0, R, window, PrefA, PrefB, LastOK in *. cbn [rbuf rr rw rerr rlast rtotal rsrc rpulled].
+      split; [exact HtS|]. split; [exact HR|]. split; [|lia].
+      right. destruct HP as [[Heq _]|HB]; [lia|exact HB]. }
+    destruct (write_buf [] s0) as [out s1] eqn:E1.
+    destruct (write_buf_S [] s0 out s1 HS0 eq_refl Hlt E1) as (HS1 & Hl1 & Ht1 & Ho1).
+    apply (Hfin out s1 (rtotal s + buffered s0)); [apply InvS_InvS0; exact HS1|exact Hl1|exact Ht1|unfold buffered, s0; cbn [rr rw]; lia|exact Ho1].
+  - assert (Heq : rr s = rw s) by lia.
+    assert (Hw0 : window s = []).
+    { pose proof (window_len s HI) as Hwl. destruct (window s); [reflexivity|]. unfold blen in Hwl. simpl in Hwl. lia. }
+    unfold write_buf. cbn [app]. replace (window s0) with (@nil Z) by (symmetry; exact Hw0).
+    apply (Hfin [] (advance s0 (rw s0) (rlast s0) (buffered s0)) (rtotal s)).
+    + split; [apply advance_inv; [exact HI0|unfold buffered, s0; cbn [rr rw]; lia|unfold buffered, s0; cbn [rr rw]; lia|lia|unfold s0; cbn [rlast]; lia]|].
+      unfold advance, buffered, s0, R, window, LastOK. cbn [rbuf rr rw rerr rlast rtotal rsrc rpulled].
+      replace (rw s - rr s) with 0 by lia. rewrite Z.add_0_r. split; [exact HtS|]. split; [|lia].
+      rewrite HR. unfold R, window. rewrite Heq. reflexivity.
+    + reflexivity.
+    + unfold advance, buffered, s0. cbn [rtotal rr rw]. lia.
+    + lia.
+    + rewrite sub_empty. reflexivity.
+Qed.
+
 (* --- ReadLine: the returned line followed by the dropped terminator is the slice of S that was consumed *)
 Definition line_law (s s' : reader) (d : bytes) : Prop :=
   exists term, sub S (rtotal s) (rtotal s') = d ++ term /\ (term = [] \/ term = [10] \/ term = [13; 10]) /\
@@ -534,12 +660,6 @@ Proof.
 Qed.
 
 (* ---------- histories of the core operations ---------- *)
-Definition core_op (op : val) : bool :=
-  match op with
-  | VL (VZ t :: _) => (1 <=? t) && (t <=? 6)
-  | _ => false
-  end.
-
 (* what one observation [ret] of operation op says, at stream position pos, with t = TotalRead afterwards *)
 Definition obs_law (pos : Z) (op : val) (ret : list val) (t : Z) : Prop :=
   match op, ret with
@@ -550,6 +670,8 @@ Definition obs_law (pos : Z) (op : val) (ret : list val) (t : Z) : Prop :=
   | VL [VZ 5], [VB d; VZ pre; VZ e] =>
     exists term, sub S pos t = d ++ term /\ (term = [] \/ term = [10] \/ term = [13; 10]) /\ t = pos + blen d + blen term
   | VL [VZ 6; VZ n], [VB d; VZ e] => d = sub S pos (pos + blen d) /\ t = pos
+  | VL [VZ 8; VZ delim], [VB d; VZ e] => d = sub S pos (pos + blen d) /\ t = pos + blen d
+  | VL [VZ 9], [VB d; VZ n; VZ e] => d = sub S pos (pos + blen d) /\ t = pos + blen d /\ n = blen d
   | _, _ => False
   end.
 
@@ -560,17 +682,19 @@ Fixpoint trace_ok (pos : Z) (ops obs : list val) {struct ops} : Prop :=
   | _, _ => False
   end.
 
-Lemma reader_step_S op s o s' : InvS s -> core_op op = true -> reader_step op s = Some (o, s') ->
+Lemma reader_step_S op s o s' : InvS s -> reader_step op s = Some (o, s') ->
   InvS s' /\ exists ret, o = VL [VL ret; VZ (rtotal s'); VZ (rpulled s'); VZ (buffered s')] /\
                         obs_law (rtotal s) op ret (rtotal s').
 Proof.
-  intros HS. unfold reader_step, core_op.
+  intros HS. unfold reader_step.
   destruct op as [z|b|l]; try discriminate.
   destruct l as [|[tag| |] l]; try discriminate.
   destruct tag as [|p|p]; try discriminate.
   repeat (destruct p as [p|p|]; try discriminate).
-  all: intros Hc; try (vm_compute in Hc; discriminate Hc).
   all: destruct l as [|[n| |] [|? ?]]; try discriminate.
+  - (* 9 *) destruct (rd_writeto s) as [[d e] s1] eqn:E. intros H; inversion H; subst.
+    destruct (rd_writeto_S s d e s' HS E) as (HS1 & [HL1 HL2]). split; [exact HS1|].
+    eexists. split; [reflexivity|]. unfold obs_law. split; [exact HL1|split; [exact HL2|reflexivity]].
   - (* 5 *) destruct (rd_line s) as [[[d pre] e] s1] eqn:E. intros H; inversion H; subst.
     destruct (rd_line_S s d pre e s' HS E) as [HS1 HL]. split; [exact HS1|].
     eexists. split; [reflexivity|]. unfold obs_law, vbool. destruct pre; exact HL.
@@ -580,6 +704,9 @@ Proof.
   - (* 6 *) destruct (rd_peek n s) as [[d e] s1] eqn:E. intros H; inversion H; subst.
     destruct (rd_peek_S n s d e s' HS E) as (HS1 & Ht & HL). split; [exact HS1|].
     eexists. split; [reflexivity|]. unfold obs_law. rewrite Ht. split; [exact HL|reflexivity].
+  - (* 8 *) destruct (rd_bytes n s) as [[d e] s1] eqn:E. intros H; inversion H; subst.
+    destruct (rd_bytes_loop_S _ n s d e s' HS E) as (HS1 & HL). split; [exact HS1|].
+    eexists. split; [reflexivity|]. exact HL.
   - (* 4 *) destruct (rd_slice n s) as [[d e] s1] eqn:E. intros H; inversion H; subst.
     destruct (rd_slice_S n s d e s' HS E) as (HS1 & HL & _). split; [exact HS1|].
     eexists. split; [reflexivity|]. exact HL.
@@ -592,16 +719,15 @@ Proof.
     eexists. split; [reflexivity|]. exact HL.
 Qed.
 
-Theorem reader_run_S : forall ops s obs, InvS s -> forallb core_op ops = true -> reader_run ops s = Some obs ->
+Theorem reader_run_S : forall ops s obs, InvS s -> reader_run ops s = Some obs ->
   trace_ok (rtotal s) ops obs.
 Proof.
-  induction ops as [|op ops IH]; intros s obs HS Hcore; cbn [reader_run].
+  induction ops as [|op ops IH]; intros s obs HS; cbn [reader_run].
   - intros E; inversion E; subst. exact I.
-  - cbn [forallb] in Hcore. apply andb_true_iff in Hcore. destruct Hcore as [Hc Hcs].
-    destruct (reader_step op s) as [[o s1]|] eqn:Es; [|discriminate].
-    destruct (reader_step_S op s o s1 HS Hc Es) as [HS1 [ret [Ho HL]]].
+  - destruct (reader_step op s) as [[o s1]|] eqn:Es; [|discriminate].
+    destruct (reader_step_S op s o s1 HS Es) as [HS1 [ret [Ho HL]]].
     destruct (reader_run ops s1) as [os|] eqn:Er; [|discriminate].
-    intros E; inversion E; subst. cbn [trace_ok]. split; [exact HL|]. apply (IH s1 os HS1 Hcs Er).
+    intros E; inversion E; subst. cbn [trace_ok]. split; [exact HL|]. apply (IH s1 os HS1 Er).
 Qed.
 End Stream.
 
@@ -615,19 +741,19 @@ Proof.
 Qed.
 
 Theorem reader_stream size src ops obs : Forall (fun b => 0 <= b) (script_stream src) ->
-  forallb core_op ops = true -> reader_run ops (new_reader size src) = Some obs ->
+  reader_run ops (new_reader size src) = Some obs ->
   trace_ok (script_stream src) 0 ops obs.
 Proof.
-  intros Hwf Hcore Hrun.
-  apply (reader_run_S (script_stream src) Hwf ops (new_reader size src) obs (new_reader_invS size src) Hcore Hrun).
+  intros Hwf Hrun.
+  apply (reader_run_S (script_stream src) Hwf ops (new_reader size src) obs (new_reader_invS size src) Hrun).
 Qed.
 
 Lemma reader_stream_example :
   let src := [([97;98;99;10], 0); ([100;13], 0); ([10;101], 1)] in
-  let ops := [VL [VZ 2]; VL [VZ 4; VZ 10]; VL [VZ 3]; VL [VZ 2]; VL [VZ 6; VZ 3]; VL [VZ 5]; VL [VZ 1; VZ 40]; VL [VZ 3]; VL [VZ 5]] in
-  Forall (fun b => 0 <= b) (script_stream src) /\ forallb core_op ops = true /\
+  let ops := [VL [VZ 2]; VL [VZ 4; VZ 10]; VL [VZ 3]; VL [VZ 2]; VL [VZ 6; VZ 3]; VL [VZ 5]; VL [VZ 1; VZ 40]; VL [VZ 3]; VL [VZ 8; VZ 10]; VL [VZ 9]] in
+  Forall (fun b => 0 <= b) (script_stream src) /\
   exists obs, reader_run ops (new_reader 16 src) = Some obs.
-Proof. cbn zeta. split; [repeat constructor; lia|]. split; [reflexivity|]. eexists. vm_compute. reflexivity. Qed.
+Proof. cbn zeta. split; [repeat constructor; lia|]. eexists. vm_compute. reflexivity. Qed.
 
 (* ---------- Writer stream: sink ++ buffer is exactly the sequence of accepted bytes ---------- *)
 Lemma firstn_app_exact_own {A} (l t : list A) : firstn (length l) (l ++ t) = l.
@@ -736,7 +862,7 @@ Lemma w_write_byte_wall c s e s' : WInv s -> w_write_byte c s = (e, s') ->
   wall s' = wall s ++ (if e =? 0 then [c] else []).
 Proof.
   unfold w_write_byte. intros HI. destruct (negb (werr s =? 0)) eqn:Ee.
-  - intros E; inversion E; subst. destruct (werr s =? 0); [discriminate|]. rewrite app_nil_r. reflexivity.
+  - intros E; inversion E; subst. rewrite negb_true_iff in Ee. rewrite Ee, app_nil_r. reflexivity.
   - destruct (avail s <=? 0).
     + destruct (w_flush s) as [fe s1] eqn:Ef. destruct (w_flush_inv _ _ _ _ HI Ef) as (_ & _ & Hne & _).
       pose proof (w_flush_wall _ _ _ Ef) as Hw.
@@ -747,11 +873,80 @@ Proof.
       unfold wall, w_add_total, w_set. cbn [wout wbuf Z.eqb]. rewrite app_assoc. reflexivity.
 Qed.
 
-Definition wcore_op (op : val) : bool :=
-  match op with
-  | VL (VZ t :: _) => (1 <=? t) && (t <=? 4)
-  | _ => false
-  end.
+(* --- ReadFrom: the bytes taken from the reader, in order, are appended *)
+Lemma w_readfrom_loop_wall : forall fuel src n s early n' e' s', WInvN n s -> 0 <= n ->
+  w_readfrom_loop fuel src n s = (early, (n', e', s')) ->
+  exists a rest, script_stream src = a ++ rest /\ blen a = n' - n /\
+    match early with
+    | Some (n1, e1, s1) => wall s1 = wall s ++ a /\ n1 = n'
+    | None => wall s' = wall s ++ a
+    end.
+Proof.
+  induction fuel as [|f IH]; intros src n s early n' e' s' HI Hn; cbn [w_readfrom_loop].
+  - intros E; inversion E; subst. exists [], (script_stream src). rewrite app_nil_r. change (blen []) with 0.
+    repeat split; lia.
+  - assert (Hcore : forall s1, WInvN n s1 -> wall s1 = wall s ->
+      (let '(d, e, src') := src_read (avail s1) src in
+       if blen d =? 0 then (None, (n, e, s1))
+       else let s2 := w_set s1 (wbuf s1 ++ d) (werr s1) in
+            if negb (e =? 0) then (None, (n + blen d, e, s2)) else w_readfrom_loop f src' (n + blen d) s2)
+      = (early, (n', e', s')) ->
+      exists a rest, script_stream src = a ++ rest /\ blen a = n' - n /\
+        match early with
+        | Some (n1, e1, s1') => wall s1' = wall s ++ a /\ n1 = n'
+        | None => wall s' = wall s ++ a
+        end).
+    { intros s1 HI1 Hw1. destruct (src_read (avail s1) src) as [[d e] src'] eqn:Es.
+      assert (Hroom : 0 <= avail s1) by (unfold avail, WInvN in *; lia).
+      pose proof (src_read_len _ _ _ _ _ Hroom Es) as Hd. pose proof (blen_nonneg d) as Hd0.
+      destruct (src_read_stream _ _ _ _ _ Hroom Es) as [Hstream _].
+      destruct (blen d =? 0) eqn:Ed0.
+      - intros E; inversion E; subst. exists [], (script_stream src). rewrite app_nil_r. change (blen []) with 0.
+        repeat split; [lia|exact Hw1].
+      - assert (HI2 : WInvN (n + blen d) (w_set s1 (wbuf s1 ++ d) (werr s1))).
+        { unfold WInvN, w_set, avail in *. cbn [wbuf wcap werr wtotal wsink wout]. rewrite blen_app. lia. }
+        assert (Hw2 : wall (w_set s1 (wbuf s1 ++ d) (werr s1)) = wall s ++ d).
+        { unfold wall, w_set in *. cbn [wout wbuf]. rewrite app_assoc, Hw1. reflexivity. }
+        destruct (negb (e =? 0)).
+        + intros E; inversion E; subst. exists d, (script_stream src'). repeat split; [exact Hstream|lia|exact Hw2].
+        + intros E. destruct (IH _ _ _ _ _ _ _ HI2 ltac:(lia) E) as [a [rest [Hs [Hl Hm]]]].
+          exists (d ++ a), rest. split; [rewrite Hstream, Hs, app_assoc; reflexivity|]. split; [rewrite blen_app; lia|].
+          destruct early as [[[n1 e1] s1']|]; rewrite Hw2, <- app_assoc in Hm; exact Hm. }
+    destruct (avail s =? 0) eqn:Ea.
+    + destruct (w_flush s) as [fe s1] eqn:Ef. destruct (w_flush_inv _ _ _ _ HI Ef) as (HI1 & _).
+      pose proof (w_flush_wall _ _ _ Ef) as Hw.
+      destruct (negb (fe =? 0)) eqn:Efe.
+      * intros E; inversion E; subst. exists [], (script_stream src). rewrite app_nil_r. change (blen []) with 0.
+        repeat split; [lia|]. unfold wall, w_add_total in *. cbn [wout wbuf]. exact Hw.
+      * apply Hcore; assumption.
+    + cbn [negb Z.eqb]. apply Hcore; [exact HI|reflexivity].
+Qed.
+
+Lemma firstn_prefix_len (a rest : bytes) : firstn (Z.to_nat (blen a)) (a ++ rest) = a.
+Proof. unfold blen. rewrite Nat2Z.id. apply firstn_app_exact_own. Qed.
+
+Lemma w_readfrom_wall src s n e s' : WInv s -> w_readfrom src s = (n, e, s') ->
+  wall s' = wall s ++ firstn (Z.to_nat n) (script_stream src) /\ 0 <= n <= blen (script_stream src).
+Proof.
+  unfold w_readfrom. intros HI.
+  destruct (w_readfrom_loop _ src 0 s) as [early [[n1 e1] s1]] eqn:El.
+  destruct (w_readfrom_loop_wall _ _ _ _ _ _ _ _ HI ltac:(lia) El) as [a [rest [Hs [Hl Hm]]]].
+  pose proof (blen_nonneg a) as Ha. pose proof (blen_nonneg rest) as Hr.
+  assert (Hn1 : n1 = blen a) by lia.
+  assert (Hfirst : firstn (Z.to_nat n1) (script_stream src) = a) by (rewrite Hn1, Hs; apply firstn_prefix_len).
+  assert (Hbound : 0 <= n1 <= blen (script_stream src)) by (rewrite Hs, blen_app; lia).
+  destruct early as [[[n2 e2] s2]|].
+  - destruct Hm as [Hw ->]. intros E; inversion E; subst. rewrite Hfirst. split; [exact Hw|exact Hbound].
+  - assert (Hend : forall sx, wall sx = wall s1 -> wall (w_add_total sx n1) = wall s ++ firstn (Z.to_nat n1) (script_stream src)).
+    { intros sx Hx. unfold w_add_total, wall in *. cbn [wout wbuf]. rewrite Hx, Hfirst. exact Hm. }
+    destruct (e1 =? 1).
+    + destruct (avail s1 =? 0).
+      * destruct (w_flush s1) as [fe s2] eqn:Ef. pose proof (w_flush_wall _ _ _ Ef) as Hw.
+        intros E; inversion E; subst. split; [apply Hend; exact Hw|exact Hbound].
+      * intros E; inversion E; subst. split; [apply Hend; reflexivity|exact Hbound].
+    + intros E; inversion E; subst. split; [apply Hend; reflexivity|exact Hbound].
+Qed.
+
 (* a = the bytes the operation accepted; b = Buffered afterwards *)
 Definition wobs_law (op : val) (ret : list val) (a : bytes) (b : Z) : Prop :=
   match op, ret with
@@ -759,6 +954,8 @@ Definition wobs_law (op : val) (ret : list val) (a : bytes) (b : Z) : Prop :=
   | VL [VZ 3; VB d], [VZ n; VZ e] => a = firstn (Z.to_nat n) d /\ 0 <= n <= blen d /\ (n < blen d -> e <> 0)
   | VL [VZ 2; VZ c], [VZ e] => a = (if e =? 0 then [c] else [])
   | VL [VZ 4], [VZ e] => a = [] /\ (e = 0 -> b = 0)
+  | VL [VZ 6; src], [VZ n; VZ e] =>
+    exists sc, dec_script src = Some sc /\ a = firstn (Z.to_nat n) (script_stream sc) /\ 0 <= n <= blen (script_stream sc)
   | _, _ => False
   end.
 Fixpoint wtrace_ok (A : bytes) (ops obs : list val) {struct ops} : Prop :=
@@ -772,19 +969,27 @@ Fixpoint wtrace_ok (A : bytes) (ops obs : list val) {struct ops} : Prop :=
 Lemma wall_len s : WInv s -> wtotal s = blen (wall s).
 Proof. unfold WInv, WInvN, wall. intros (H & _). rewrite blen_app. lia. Qed.
 
-Lemma writer_step_S op s o s' : WInv s -> wcore_op op = true -> writer_step op s = Some (o, s') ->
+Lemma writer_step_S op s o s' : WInv s -> writer_step op s = Some (o, s') ->
   WInv s' /\ exists ret a, o = VL [VL ret; VZ (wtotal s'); VZ (blen (wout s')); VZ (blen (wbuf s'))] /\
                           wobs_law op ret a (blen (wbuf s')) /\ wall s' = wall s ++ a.
 Proof.
-  intros HI Hc Hstep. destruct (writer_step_inv op s o s' HI Hstep) as [HI1 _]. split; [exact HI1|].
-  revert Hc Hstep. unfold writer_step, wcore_op.
+  intros HI Hstep. destruct (writer_step_inv op s o s' HI Hstep) as [HI1 _]. split; [exact HI1|].
+  revert Hstep. unfold writer_step.
   destruct op as [z|b|l]; try discriminate.
   destruct l as [|[tag| |] l]; try discriminate.
   destruct tag as [|p|p]; try discriminate.
   repeat (destruct p as [p|p|]; try discriminate).
-  all: intros Hc; try (vm_compute in Hc; discriminate Hc).
   all: destruct l as [|x [|? ?]]; try discriminate.
   all: try (destruct x as [c|d|src]; try discriminate).
+  - (* 3 WriteString *) destruct (w_write_string d s) as [[n e] s1] eqn:E. intros H; inversion H; subst.
+    destruct (w_write_gen_wall false d s n e s' HI E) as (Hn & Hw & He).
+    exists [VZ n; VZ e], (firstn (Z.to_nat n) d). split; [reflexivity|]. split; [|exact Hw].
+    split; [reflexivity|split; assumption].
+  - (* 6 ReadFrom *) destruct (dec_script (VL src)) as [sc|] eqn:Ed; [|discriminate].
+    destruct (w_readfrom sc s) as [[n e] s1] eqn:E. intros H; inversion H; subst.
+    destruct (w_readfrom_wall sc s n e s' HI E) as [Hw Hn].
+    exists [VZ n; VZ e], (firstn (Z.to_nat n) (script_stream sc)). split; [reflexivity|]. split; [|exact Hw].
+    exists sc. split; [exact Ed|split; [reflexivity|exact Hn]].
   - (* 4 Flush *) destruct (w_flush s) as [e s1] eqn:E. intros H; inversion H; subst.
     exists [VZ e], []. split; [reflexivity|]. split.
     + split; [reflexivity|]. intros He. destruct (w_flush_inv _ _ _ _ HI E) as (_ & Hempty & _).
@@ -793,32 +998,32 @@ Proof.
   - (* 2 WriteByte *) destruct (w_write_byte c s) as [e s1] eqn:E. intros H; inversion H; subst.
     exists [VZ e], (if e =? 0 then [c] else []). split; [reflexivity|]. split; [reflexivity|].
     apply (w_write_byte_wall _ _ _ _ HI E).
-  - (* 3 WriteString *) destruct (w_write_string d s) as [[n e] s1] eqn:E. intros H; inversion H; subst.
-    destruct (w_write_gen_wall false d s n e s' HI E) as (Hn & Hw & He).
-    exists [VZ n; VZ e], (firstn (Z.to_nat n) d). split; [reflexivity|]. split; [|exact Hw].
-    split; [reflexivity|split; assumption].
   - (* 1 Write *) destruct (w_write d s) as [[n e] s1] eqn:E. intros H; inversion H; subst.
     destruct (w_write_gen_wall true d s n e s' HI E) as (Hn & Hw & He).
     exists [VZ n; VZ e], (firstn (Z.to_nat n) d). split; [reflexivity|]. split; [|exact Hw].
     split; [reflexivity|split; assumption].
 Qed.
 
-Theorem writer_run_S : forall ops s obs, WInv s -> forallb wcore_op ops = true -> writer_run ops s = Some obs ->
+Theorem writer_run_S : forall ops s obs, WInv s -> writer_run ops s = Some obs ->
   wtrace_ok (wall s) ops obs.
 Proof.
-  induction ops as [|op ops IH]; intros s obs HI Hcore; cbn [writer_run].
+  induction ops as [|op ops IH]; intros s obs HI; cbn [writer_run].
   - intros E; inversion E; subst. exists (wbuf s). reflexivity.
-  - cbn [forallb] in Hcore. apply andb_true_iff in Hcore. destruct Hcore as [Hc Hcs].
-    destruct (writer_step op s) as [[o s1]|] eqn:Es; [|discriminate].
-    destruct (writer_step_S op s o s1 HI Hc Es) as [HI1 [ret [a [Ho [HL Hw]]]]].
+  - destruct (writer_step op s) as [[o s1]|] eqn:Es; [|discriminate].
+    destruct (writer_step_S op s o s1 HI Es) as [HI1 [ret [a [Ho [HL Hw]]]]].
     destruct (writer_run ops s1) as [os|] eqn:Er; [|discriminate].
     intros E; inversion E; subst. cbn [wtrace_ok]. exists a. split; [exact HL|]. split.
     + rewrite <- Hw. apply wall_len. exact HI1.
-    + rewrite <- Hw. apply (IH s1 os HI1 Hcs Er).
+    + rewrite <- Hw. apply (IH s1 os HI1 Er).
 Qed.
 
-Theorem writer_stream size sink ops obs : forallb wcore_op ops = true ->
+Theorem writer_stream size sink ops obs :
   writer_run ops (new_writer size sink) = Some obs -> wtrace_ok [] ops obs.
 Proof.
-  intros Hc Hr. apply (writer_run_S ops (new_writer size sink) obs (new_writer_inv size sink) Hc Hr).
+  intros Hr. apply (writer_run_S ops (new_writer size sink) obs (new_writer_inv size sink) Hr).
 Qed.
+
+Lemma writer_stream_example :
+  exists obs, writer_run [VL [VZ 1; VB [1;2;3;4;5;6;7]]; VL [VZ 2; VZ 8]; VL [VZ 6; VL [VL [VB [9;10;11]; VZ 1]]]; VL [VZ 3; VB [12;13]]; VL [VZ 4]]
+                         (new_writer 4 [(2, 0); (5000, 0); (1, 8)]) = Some obs.
+Proof. eexists. vm_compute. reflexivity. Qed.
